@@ -27,7 +27,7 @@ pub mod g {
     use crate::verif_support::gnom::{
         branch::alt,
         bytes::complete::tag,
-        character::complete::{char, one_of, space0, space1},
+        character::complete::{char, one_of, satisfy, space0, space1},
         combinator::{eof, map, opt, value},
         multi::many1,
         sequence::{pair, preceded, terminated, tuple},
@@ -55,6 +55,9 @@ pub mod g {
 
     pub fn rank_squares(r: &FenRank) -> &[Option<Piece>] {
         &r.0
+    }
+    pub fn castle_right_is_err(s: &str) -> bool {
+        fen_castle_right(s).is_err()
     }
     // filler value of the bounded ghost Vec's unused slots (never observable)
     impl Default for FenCastleRight {
@@ -493,6 +496,30 @@ fn any_utf8(buf: &mut [u8; NCH * 3], starts: &mut [usize; NCH + 1]) -> (usize, u
     }
     starts[NCH] = n;
     (n, nch)
+}
+
+//@ obligation: C06.reader.tokens_total_utf8
+//@ domain: bounded(valid UTF-8 input of <= 3 characters of 1..3 bytes each)
+//@ functions: chess/fen/fen_parser.rs::fen_piece, chess/fen/fen_parser.rs::fen_empty_squares, chess/fen/fen_parser.rs::fen_castle_right, chess/fen/fen_parser.rs::fen_file, chess/fen/fen_parser.rs::fen_rank
+//@ timeout: 1200
+//@ mem_gb: 8
+//@ note: the single-token parsers on NON-ASCII text too: for every valid UTF-8 input of up to three characters (multi-byte characters included) they return a value or a parse error and never panic (no unwrap on a character that merely looks like a digit or letter, no slicing inside a character), and what they accept starts with an ASCII byte
+//@ assumes: ghost nom library (support/gnom.rs); core's char decoding / classification as compiled
+#[kani::proof]
+#[kani::unwind(24)]
+fn vk_c06_reader_tokens_total_utf8() {
+    let mut buf = [0u8; NCH * 3];
+    let mut starts = [0usize; NCH + 1];
+    let (n, nch) = any_utf8(&mut buf, &mut starts);
+    kani::assume(nch <= 3);
+    let s = unsafe { core::str::from_utf8_unchecked(&buf[..n]) };
+    kani::cover!(n > 0 && buf[0] >= 0x80);
+    let ascii_first = n > 0 && buf[0] < 0x80;
+    assert!(g::fen_piece(s).is_err() || ascii_first);
+    assert!(g::fen_empty_squares(s).is_err() || ascii_first);
+    assert!(g::castle_right_is_err(s) || ascii_first);
+    assert!(g::fen_file(s).is_err() || ascii_first);
+    assert!(g::fen_rank(s).is_err() || ascii_first);
 }
 
 //@ obligation: C06.reader.entry_total
